@@ -16,8 +16,9 @@ ASSUME C09_ItemsKnown
 ASSUME C09_EveryShapeInEveryState
 ASSUME C09_EveryTargetCovered
 ASSUME C09_EveryConfigCrossed
+ASSUME C09_ClassesDisjoint
 ASSUME C09_LocalStateCrossed
-ASSUME PrintT(<<"GRAMMAR", Cardinality(Targets), Cardinality(Alphabet), Cardinality(SeqScenarios),
+ASSUME PrintT(<<"GRAMMAR", Cardinality(Targets), Cardinality(Alphabet), NSeqScenarios,
                 Cardinality(Helpers), Cardinality(ReplyScenarios)>>)
 ASSUME PrintT(<<"SETUPS", [f \in Stateful |-> Cardinality(SetupsOK(f, Depth(f)))]>>)
 =============================================================================
